@@ -192,7 +192,7 @@ def run_kani_units(units, tier, jobs, keep=False, skip_playback=False):
         for u, hs in todo:
             names = [h['name'] for h in hs] + [u.get('canary', 'canary_must_fail')]
             try:
-                res, meta = kani.run_harnesses(sc, u['package'], names, jobs=jobs, timeout=u.get('timeout', 3600))
+                res, meta = kani.run_harnesses(sc, u['package'], names, jobs=jobs, timeout=u.get('timeout', 3600), isolated=tuple(u.get('isolated', ())))
             except kani.ToolLimit as e:
                 raise Undecided(str(e))
             can = res.get(u.get('canary', 'canary_must_fail'))
